@@ -246,6 +246,32 @@ func c16(w *core.World, r *core.Report) {
 		}
 	}
 
+	// ---- EXPIRY-IDENTITY
+	r.Rule("EXPIRY-IDENTITY", 1, "the timer-triggered rollback decides by OBJECT identity, not by id: in the TransactionManager method reached from the timer callback, the rollback effect is guarded by an equality test between the transaction slot and the *Transaction the expired timer belongs to. A look-up by id would accept a later transaction that re-uses the id.")
+	{
+		tcb := w.Func("pkg/datastore/types", "Transaction", "rollback")
+		if tcb != nil {
+			reach := w.CG().Reachable(func(e core.Edge) bool { return e.Kind == "ref" || e.Kind == "dynamic-sig" }, tcb)
+			for _, f := range w.RepoFns {
+				if !reach[f] || !inTypes(f) || f.Signature.Recv() == nil || core.TypeKey(f.Signature.Recv().Type()) != kTM {
+					continue
+				}
+				var tparam *ssa.Parameter
+				for _, p := range f.Params[1:] {
+					if core.TypeKey(p.Type()) == "datastore/types.Transaction" {
+						tparam = p
+					}
+				}
+				for _, c := range core.CallsTo(f, kRollbackIface) {
+					ok := tparam != nil && core.GuardedByEq(c, true,
+						func(v ssa.Value) bool { return core.FieldOf(v) == kTMSlot },
+						func(v ssa.Value) bool { return core.HasOrigin(v, tparam) })
+					r.Check(ok, "EXPIRY-IDENTITY", core.Site(f, "rollback guarded by slot == expired transaction"), w.InstrPos(c), "the expired timer's own transaction object must still be the registered one")
+				}
+			}
+		}
+	}
+
 	// ---- NO-SLOT-POLL
 	r.Rule("NO-SLOT-POLL", 1, "no CFG cycle contains a RegisterTransaction call while dmutex is held: Confirm/Cancel need dmutex, so a TransactionSet that waits for the slot would make them fail as locked.")
 	for _, c := range w.CallersOfKey(kRegisterTx) {
